@@ -51,6 +51,19 @@ CHECKS = {
         "trusted as the reader.",
         "DESIGN.md section 4, C03",
     ),
+    "C04": (
+        "exploration",
+        "model-based testing of generated histories (Hypothesis): sow / grow "
+        "plan / reload points / reap against the direct in-process sweep",
+        "Generated inputs, batchings, shuffle settings (constructor and sow), "
+        "grow plans (permutations, partitions, repeats, four ways of growing, "
+        "parallel workers) and reload points - including every step in a "
+        "forked fresh process - are executed against the real crop on disk; "
+        "the reaped structure must deep-equal the direct sweep.",
+        "Raw reaps are compared in name-sorted argument order; shuffle in "
+        "{False, True, int}.",
+        "DESIGN.md section 4, C04",
+    ),
     "C07": (
         "exploration",
         "exhaustive enumeration of (N, batch spec, realisation, shuffle, "
